@@ -206,7 +206,12 @@ def main():
     path = os.path.join(out, "results.jsonl" if OPS == "basic" else f"results-{OPS}.jsonl")
     done = set()
     if os.path.exists(path):
-        done = {json.loads(l)["mutant"] for l in open(path) if l.strip()}
+        rows = [json.loads(l) for l in open(path) if l.strip()]
+        # --retry-survivors: run the SURVIVED / timeout rows again (after the checks were strengthened); the report
+        # takes the last row per mutant
+        retry = "--retry-survivors" in args
+        last = {r["mutant"]: r for r in rows}
+        done = {m for m, r in last.items() if not (retry and (r["result"] == "SURVIVED" or r["result"].startswith(("timeout", "harness", "error"))))}
     jobs = [j for j in jobs if f"{j[0]}:{j[1][4]}:{j[1][3]}:{j[1][1]}:{j[1][0]}.{j[1][2]}" not in done]
     print(len(jobs), "mutants to run", flush=True)
     with open(path, "a") as f, concurrent.futures.ThreadPoolExecutor(jobs_n) as ex:
